@@ -8,7 +8,7 @@ LEVEL = "other"
 EXPLANATION = (
     "Must-pass-through and data-dependence rules on IpGenerator and the DHCP pair: (G-BLOCK) every Some(net) returned "
     "by fetch_net is preceded on its path by block_subnet(net) of the same value, which lies inside the available "
-    "range just tested, and fetch_ip is fetch_net(/32); (G-SCAN) block_range visits every free range (no early-terminating or skipping iterator adaptor, no break) and splits those that overlap the blocked one, which is what keeps nested free ranges consistent; (G-ENDS) new_sub offers (net.id(), net.broadcast()) and "
+    "range just tested, and fetch_ip is fetch_net(/32); (G-SCAN) block_range visits every free range (no early-terminating or skipping iterator adaptor, no break) and splits those that overlap the blocked one, which is what keeps nested free ranges consistent; (G-SPLIT) the body of that loop, reduced to a formula, removes the overlapping free range and puts back exactly its parts below and above the blocked range; (G-ENDS) new_sub offers (net.id(), net.broadcast()) and "
     "new_sub_no_ends offers (net.id()+1, net.broadcast()-1); (D-LEASE) the server's Offer carries fetch_ip()'s result, "
     "its Ack echoes the Request's address, Release returns the released address to the generator; the client's "
     "Request echoes the Offer and the address it stores is the Ack's. Not decided: uniqueness over arbitrary "
@@ -124,6 +124,11 @@ def run(ctx):
         probs.append("block_range no longer selects the free ranges by overlaps(range)")
     (ctx.bad if probs else ctx.ok)("G-SCAN", "G-SCAN:block_range", br.span, "; ".join(probs) if probs else
         "every free range is visited and those overlapping the blocked range are split (exhaustive scan)")
+
+    # ---------------------------------------------------------------- G-SPLIT
+    # what happens to one overlapping free range: it is removed and replaced by its part below the blocked range
+    # [av.start, range.start - 1] and its part above it [range.end + 1, av.end] (each only when it exists)
+    g_split(ctx, prog, br)
 
     # ---------------------------------------------------------------- G-ENDS
     ns = prog.method("IpGenerator", "new_sub")
@@ -279,3 +284,110 @@ def _closures_of(prog, key, seen=None):
             seen.append(ck)
             _closures_of(prog, ck, seen)
     return seen
+
+
+
+def g_split(ctx, prog, br):
+    from .. import symx as S
+    g = cfg(br)
+    rem = [(bb, t) for bb, t in K.calls(br) if "btree" in (F.callee_key(t) or "") and (F.callee_key(t) or "").endswith("::remove")
+           and dep.has_field(dep.arg_origins(br, bb, 0), "IpGenerator", "available_ranges")]
+    if len(rem) != 1 or not g.in_loop(rem[0][0]):
+        ctx.require(False, "G-SPLIT: the loop that replaces overlapping free ranges was not found (%d removals)" % len(rem))
+    nx = [(bb, t) for bb, t in K.calls(br) if (F.callee(t) or {}).get("fn", "").endswith("Iterator::next") and g.dominates(bb, rem[0][0])]
+    ctx.require(len(nx) >= 1, "G-SPLIT: loop header not found")
+    hdr, ht = nx[-1]
+    d = F.call_dest(ht)
+    sw = [s_ for s_ in range(len(br.blocks)) if br.term(s_)[0] == "switch" and (dep.switch_condition(br, s_) or {}).get("kind") == "discr" and dep.switch_condition(br, s_)["place"][0] == d[0]]
+    ctx.require(len(sw) == 1, "G-SPLIT: loop item match not found")
+    some = K.skip_false_edges(br, dep.switch_target(br, sw[0], 1))
+    try:
+        t, _ = S.extract_from(prog, br, some, stop=[hdr])
+    except S.Unsupported as e:
+        ctx.require(False, "G-SPLIT: the loop body cannot be reduced to a formula (%s)" % e)
+    SELF, RANGE = ("local", 1), ("local", 2)
+    FREE = ("field", SELF, "available_ranges")
+
+    def strip(x):
+        def f(y):
+            if y[0] == "call" and y[1].rsplit("::", 1)[-1] in ("expect", "unwrap") and y[2]:
+                return strip(y[2][0])
+            return None
+        return S.subst(x, f)
+    t = strip(t)
+    leaves = S.ok_paths(t, lambda x: True)
+    # the loop item: the value removed
+    probs = []
+    av = None
+    seen = 0
+    for conds, leaf in leaves:
+        pass
+    def chain(v):
+        ins, rm = [], []
+        while v[0] == "upd" and v[2] == 0 and len(v[3]) == 2:
+            (ins if v[1].endswith("::insert") else rm if v[1].endswith("::remove") else probs).append(v[3][1])
+            v = v[3][0]
+        return v, ins, rm
+    def paths(x, conds):
+        if x[0] == "ite":
+            yield from paths(x[2], conds + [(x[1], True)])
+            yield from paths(x[3], conds + [(x[1], False)])
+        else:
+            yield conds, x
+    npaths = 0
+    for conds, leaf in paths(t, []):
+        npaths += 1
+        if leaf[0] != "state":
+            probs.append("a path through the loop body leaves the free set untouched")
+            continue
+        st = dict(leaf[2])
+        v = st.get(SELF)
+        if v is None:
+            probs.append("a path through the loop body does not update the free set")
+            continue
+        root, fs = S.with_fields(v)
+        base, ins, rm = chain(fs.get("available_ranges", ("?",)))
+        if base != FREE or len(rm) != 1:
+            probs.append("the overlapping free range is not removed exactly once (%d removals)" % len(rm))
+            continue
+        item = rm[0]
+        ZERO = lambda x: x[0] == "call" and x[1].endswith("ipv4_address::{impl#0}::new") and x[2][0][0] == "agg" and all(e == ("const", 0) for e in x[2][0][2])
+        MAX = lambda x: x[0] == "call" and x[1].endswith("ipv4_address::{impl#0}::new") and x[2][0][0] == "agg" and all(e == ("const", 255) for e in x[2][0][2])
+        def rng(x):
+            return x if x[0] == "call" and x[1].rsplit("::", 1)[-1] == "new" and len(x[2]) == 2 and "IpRange" in (prog.bodies[x[1]].pretty if x[1] in prog.bodies else x[1]) else None
+        LEFT = lambda x: rng(x) and x[2][0] == ("field", item, "start") and x[2][1][0] == "call" and x[2][1][1].endswith("::add") and x[2][1][2] == (("field", RANGE, "start"), ("const", -1))
+        RIGHT = lambda x: rng(x) and x[2][1] == ("field", item, "end") and x[2][0][0] == "call" and x[2][0][1].endswith("::add") and x[2][0][2] == (("field", RANGE, "end"), ("const", 1))
+        has_low = has_high = None      # does a part below / above the blocked range exist on this path?
+        low_ne = high_ne = None
+        for c, val in conds:
+            nm = c[1].rsplit("::", 1)[-1] if c[0] == "call" else None
+            if nm in ("gt", "ne") and c[2][0] == ("field", RANGE, "start") and ZERO(c[2][1]):
+                has_low = val
+            elif nm == "lt" and ZERO(c[2][0]) and c[2][1] == ("field", RANGE, "start"):
+                has_low = val
+            elif nm in ("lt", "ne") and c[2][0] == ("field", RANGE, "end") and MAX(c[2][1]):
+                has_high = val
+            elif nm == "gt" and MAX(c[2][0]) and c[2][1] == ("field", RANGE, "end"):
+                has_high = val
+            elif nm == "is_empty" and LEFT(c[2][0]):
+                low_ne = not val
+            elif nm == "is_empty" and RIGHT(c[2][0]):
+                high_ne = not val
+            elif nm == "is_empty":
+                pass      # emptiness of some other range: whatever is put back is judged below
+            else:
+                ctx.require(False, "G-SPLIT: unrecognised condition %s in the loop body: no verdict" % S.term_str(c)[:120])
+        want_low = bool(has_low) and bool(low_ne)
+        want_high = bool(has_high) and bool(high_ne)
+        got_low = [x for x in ins if LEFT(x)]
+        got_high = [x for x in ins if RIGHT(x)]
+        other = [x for x in ins if not LEFT(x) and not RIGHT(x)]
+        if other:
+            probs.append("a range other than [av.start, range.start-1] / [range.end+1, av.end] is put back: %s" % S.term_str(other[0])[:160])
+        if bool(got_low) != want_low:
+            probs.append("the part of the free range below the blocked range is %s" % ("lost" if want_low else "put back although it is empty or would underflow"))
+        if bool(got_high) != want_high:
+            probs.append("the part of the free range above the blocked range is %s" % ("lost" if want_high else "put back although it is empty or would overflow"))
+    probs = sorted(set(p_ for p_ in probs if isinstance(p_, str)))
+    (ctx.bad if probs else ctx.ok)("G-SPLIT", "G-SPLIT:block_range", br.span, "; ".join(probs[:3]) if probs else
+        "each overlapping free range av is replaced by [av.start, range.start-1] and [range.end+1, av.end], each exactly when it exists (%d paths)" % npaths)
